@@ -242,6 +242,22 @@ def build(c):
         sig = tys.PolyFuncType([B.param(p) for p in c["params"]], B.func(c["body"]))
         inst = B.func(c["inst"]) if c["params"] else None
         targs = [B.arg(a) for a in c["targs"]] if c["params"] else None
+        if not c["params"]:
+            # a function WITHOUT type parameters: its instantiated signature is its body, whatever else is handed over
+            # as `instantiation` (nothing, the body spelled again, or a function type that is not the body -- refusing
+            # the last is fine, believing it is not)
+            how_ = len(repr(c)) % 3
+            if how_ == 1:
+                inst = tys.FunctionType(B.row(c["body"][1]), B.row(c["body"][2]), list(c["body"][3]))
+                sp["feats"].append("feature:mono-callee-explicit-instantiation")
+            elif how_ == 2:
+                inst = tys.FunctionType([*B.row(c["body"][1]), tys.Bool, tys.Qubit], [tys.Unit])
+                sp["feats"].append("feature:mono-callee-foreign-instantiation")
+                try:
+                    (ops.Call if k == "Call" else ops.LoadFunc)(sig, inst, targs)
+                except Exception:  # noqa: BLE001
+                    sp["feats"].append("observed:foreign-instantiation-refused")
+                    inst = None
         if k == "Call":
             op = ops.Call(sig, inst, targs)
             ins, outs = c["inst"][1], c["inst"][2]
